@@ -391,17 +391,33 @@ func c19(c *core.Ctx, r *core.Report) {
 					continue
 				}
 				lf := an.LiteralFields(lit)
+				// fields set afterwards, in this function, on the local the helper's result was put in
+				// (`data := newData(…); data.Error = r.Error()`)
+				later := map[string]ssa.Value{}
+				if ld, isLd := call.Common().Args[1].(*ssa.UnOp); isLd {
+					if local, isAl := ld.X.(*ssa.Alloc); isAl && local != lit {
+						for name2, vals := range an.LiteralFieldStores(local) {
+							if len(vals) == 1 {
+								later[name2] = vals[0]
+							}
+						}
+					}
+				}
 				st := lit.Type().(*types.Pointer).Elem().Underlying().(*types.Struct)
 				for i := 0; i < st.NumFields(); i++ {
 					k := st.Field(i).Name()
 					v, set := lf[k]
+					vF := dataFV.F
+					if lv, isLater := later[k]; isLater {
+						v, set, vF = lv, true, nil
+					}
 					key := name + "#" + k
 					if !set {
 						r.Violation(key, an.Pos(c, call), "%s leaves %s unset: the output states 0 regardless of the result", name, k)
 						continue
 					}
 					n++
-					d := descIn(an.FV{V: v, F: dataFV.F})
+					d := descIn(an.FV{V: v, F: vF})
 					w, known := want[k]
 					if !known {
 						r.Note(key, an.Pos(c, call), "new key %s ← %s (no table entry; information)", k, d)
